@@ -369,6 +369,54 @@ func ruleSIBLINGBOUNDARY(c *Ctx) {
 				ok = true
 			}
 		}
+		// the child test: a stacked node belongs to the new node iff it starts at or after the new
+		// node's start (stack[i].offset >= offset). With its end offset instead, an empty node at
+		// the very start of the new range is left behind as a preceding sibling.
+		{
+			key2 := rel + "/ast.builder.addNode:child-test"
+			off := f.Params[2]
+			found2, ok2 := false, false
+			pos2 := f.Pos()
+			for _, b := range f.Blocks {
+				if len(b.Instrs) == 0 {
+					continue
+				}
+				ifi, isIf := b.Instrs[len(b.Instrs)-1].(*ssa.If)
+				if !isIf {
+					continue
+				}
+				l, op, r, isCmp := cmpNormV(ifi.Cond, true)
+				if !isCmp {
+					continue
+				}
+				var other ssa.Value
+				switch {
+				case stripConv(l) == ssa.Value(off):
+					other = r
+				case stripConv(r) == ssa.Value(off):
+					other = l
+				default:
+					continue
+				}
+				pp := vpath(other)
+				if !strings.Contains(pp, ".stack[") {
+					continue
+				}
+				found2 = true
+				pos2 = ifi.Cond.Pos()
+				if strings.HasSuffix(pp, ".offset") && op == "<=" && stripConv(l) == ssa.Value(off) {
+					ok2 = true
+				}
+			}
+			switch {
+			case !found2:
+				c.Lost(rule, key2, "no comparison between offset and a stacked node found")
+			case ok2:
+				c.Ok(rule, key2, pos2, "a stacked node is a child candidate iff its start offset >= offset")
+			default:
+				c.Bad(rule, key2, pos2, "the child test of addNode does not compare the stacked node's start offset with offset (stack[i].offset >= offset): an empty node at the very start of the new range is not adopted and stays behind as a sibling (a required accessor finds nothing)")
+			}
+		}
 		switch {
 		case !found:
 			c.Lost(rule, key, "no comparison between endoffset and a stacked node found")
